@@ -88,6 +88,53 @@ def execute_both(w, rel):
     return a, b
 
 
+def windowed_then_op(rng):
+    """A window [start, stop) of a total order taken at every kind of query level — a plain table, a UNION / UNION ALL,
+    a level whose projection hides a column — with the window strictly inside the input (so that it depends on the
+    order), followed by one or two operations of every kind (a calculation that re-creates the hidden column included).
+    -> (program, columns); the multiset of rows is determined."""
+    a, b, c = K(1), K(2), K(3)
+    cols = [a, b, c]
+    def rows(n):
+        vals = [(x, y, z) for x in (1, 2, 3) for y in (10, 20) for z in (5, 6)]
+        rng.shuffle(vals)
+        return [dict(zip(cols, v)) for v in vals[:n]]
+    l1 = ("leaf", 1, SQL, sorted(cols), rows(rng.choice([3, 4, 5])), (0, None))
+    l2 = ("leaf", 2, SQL, sorted(cols), rows(rng.choice([2, 3, 4])), (0, None))
+    shape = rng.choice(["chain", "chain", "hidden", "hidden", "plain", "chain_dedup"])
+    p, cur = l1, set(cols)
+    if shape in ("chain", "chain_dedup"):
+        p = ("chain", l1, l2) if rng.random() < 0.5 else ("chain", l2, l1)
+        if shape == "chain_dedup":
+            p = ("un", ("dedup",), mp.DEFAULT, p)
+    elif shape == "hidden":
+        cur = {a, b}
+        p = ("un", ("proj", sorted(cur)), mp.DEFAULT, p)
+    terms = [(("ref", k), rng.random() < 0.5) for k in rng.sample(sorted(cur), len(cur))]
+    p = ("un", ("sort", terms), mp.DEFAULT, p)
+    start = rng.choice([0, 0, 1])
+    p = ("un", ("slice", start, start + rng.choice([1, 2])), mp.DEFAULT, p)
+    for _ in range(rng.choice([1, 1, 2])):
+        k = rng.choice(["calc", "calc", "sel", "proj", "dedup", "sort", "slice"])
+        if k == "calc":
+            t = c if (shape == "hidden" and c not in cur and rng.random() < 0.7) else gen.fresh_tag(rng, cur | set(cols))
+            o = ("calc", t, gen.gen_expr(rng, cur, 1, need_col=True))
+            cur = cur | {t}
+        elif k == "sel":
+            o = ("sel", gen.gen_pred(rng, cur, 1))
+        elif k == "proj":
+            keep = {x for x in cur if rng.random() < 0.6} or {sorted(cur)[0]}
+            o, cur = ("proj", sorted(keep)), keep
+        elif k == "dedup":
+            o = ("dedup",)
+        elif k == "sort":
+            o = ("sort", total_sort_terms(rng, cur))
+        else:
+            o = ("slice", 0, 5)
+        p = ("un", o, mp.DEFAULT, p)
+    return p, cur
+
+
 def dedup_then_project(rng):
     """A deduplication (DISTINCT / UNION) followed by a projection that drops a column on which surviving rows still
     differ: over a leaf, a chain, a join; with sorts and slices around.  The projection must NOT be moved below the
